@@ -55,8 +55,8 @@ JudgeEapEncode(i, e) ==
   ELSE IF Has(o, "builderr") THEN B(i, << "C14" >>, "attribute setter refused a value of the encodable domain")
   ELSE IF o.err THEN B(i, << "C14" >>, "EAP encode refused an encodable packet")
   ELSE IF ~EapWellFormedFor(o.wire, d) THEN B(i, << "C14" >>, "encoded EAP packet is not the well-formed packet of the value")
-  ELSE IF o.got # d THEN B(i, << "C14" >>, "attribute read back differs from the value set")
-  ELSE IF ~o.twice THEN B(i, << "C14" >>, "encoding twice gives different octets")
+  ELSE IF Has(o, "got") /\ o.got # d THEN B(i, << "C14" >>, "attribute read back differs from the value set")
+  ELSE IF Has(o, "twice") /\ ~o.twice THEN B(i, << "C14" >>, "encoding twice gives different octets")
   ELSE << >>
 
 JudgeEapDecode(i, e) ==
